@@ -82,6 +82,28 @@ impl Family for C18Family {
             let pos = r.usize(c.actors[0].ops.len() + 1);
             c.actors[0].ops.insert(pos, plain_op(OpKind::GetInfo { via_trait: false }));
         }
+        if r.chance(1, 12) {
+            // a streak of ceremonies in which the user fails verification, then ordinary ones
+            let rp = c.prelude.first().map(|p| p.rp_id.clone()).unwrap_or_else(|| "example.com".into());
+            let mut streak = Vec::new();
+            for _ in 0..r.range(3, 5) {
+                let mut s = gen_ga(&mut r, &rp);
+                s.uv = true;
+                s.up = true;
+                let mut op = plain_op(OpKind::GetAssertion(s));
+                op.user = vec![UserOutcome::Check { presence: true, verification: false }];
+                streak.push(op);
+            }
+            for _ in 0..2 {
+                let mut s = gen_ga(&mut r, &rp);
+                s.uv = true;
+                s.up = true;
+                s.allow = None;
+                streak.push(plain_op(OpKind::GetAssertion(s)));
+            }
+            c.actors[0].verification = Some(true);
+            c.actors[0].ops.splice(0..0, streak);
+        }
         if r.chance(1, 3) {
             let pos = r.usize(c.actors[0].ops.len() + 1);
             let capability = *r.pick(&[Capability::Full, Capability::OnlyNonDiscoverable, Capability::ForcedDiscoverable]);
@@ -116,7 +138,7 @@ impl Family for C18Family {
         direct.twin = Twin::None;
         let rec = run_and_measure(&direct, stats);
         let mut j = Judge::new("C18", scn, &rec);
-        for p in ["capability_changed_between_calls", "get_info_through_trait", "make_credential_through_trait", "get_assertion_through_trait", "failing_op_through_trait", "cancelled_op_through_trait"] {
+        for p in ["three_denied_verifications_in_a_row", "capability_changed_between_calls", "get_info_through_trait", "make_credential_through_trait", "get_assertion_through_trait", "failing_op_through_trait", "cancelled_op_through_trait"] {
             stats.declare_probe(p);
         }
         if rec.panic.is_some() || rec.outcome != Outcome2::Done {
@@ -139,6 +161,18 @@ impl Family for C18Family {
             }
         }
         let mut sig = crate::rng::Fnv::new();
+        let mut denials = 0;
+        for o in &rec.ops {
+            match &o.result {
+                OpResult::Ga(Err(e)) | OpResult::Mc(Err(e)) if e.code == 0x27 => {
+                    denials += 1;
+                    if denials == 3 {
+                        stats.probe("three_denied_verifications_in_a_row");
+                    }
+                }
+                _ => denials = 0,
+            }
+        }
         for (a, b) in rec.ops.iter().zip(rec2.ops.iter()) {
             let kind = &op_spec(c, a).kind;
             let (ra, rb) = (outcome_repr(&a.result), outcome_repr(&b.result));
